@@ -61,10 +61,11 @@ inductive AllocKind where
   | pool | simple | track
   deriving Repr, DecidableEq, Inhabited
 
-/-- the JSON reader (`none` = parse error) and printer (`none` = serialisation error) plugged in by the integrator -/
+/-- the JSON reader (`none` = parse error) and the serialiser plugged in by the integrator:
+    `dump v cap0 nreuse` = the whole `err=… dump=… size=… cap=…` text of `dom-dump` / `dom-dumpwb` -/
 structure Env where
   parse : List Nat → Option JVal
-  dump : JVal → Option (List Nat)
+  dump : JVal → Nat → Nat → String
 
 /-! ## positional paths -/
 
@@ -215,7 +216,7 @@ inductive NodeOp where
   | find (key : Key)
   | atPtr (steps : List PStep)
   | info
-  | dump
+  | dump (cap0 nreuse : Nat)
   deriving Repr, Inhabited
 
 /-- result of a one-node command (besides the new document) -/
@@ -229,7 +230,7 @@ inductive Res where
   | infoC (size : Nat) (empty : Bool) (cap : Nat) (map : Bool) (back : Option JVal)
   | infoS (size : Nat) (empty : Bool)
   | scalar
-  | dump (r : Option (List Nat))
+  | dump (text : String)
   deriving Repr, Inhabited
 
 /-- forget the L2 observables (`cap=`, `map=`): the property does not constrain them -/
@@ -265,10 +266,11 @@ def applyNode (env : Env) : NodeOp → JVal → Option (JVal × Res)
     | _, _, _ => none
   | .atPtr ps, x => some (x, .atPtr (atPointer x ps))
   | .info, x => some (x, info x)
-  | .dump, x => some (x, .dump (env.dump x))
+  | .dump c r, x => some (x, .dump (env.dump x c r))
 
 inductive Op where
   | reset (a : AllocKind)
+  | fin
   | parse (d : Nat) (text : List Nat)
   | node (d : Nat) (p : Path) (op : NodeOp)
   | move (d : Nat) (p : Path) (d2 : Nat) (p2 : Path)
@@ -280,7 +282,8 @@ inductive Op where
 
 /-- what a command prints (trees as values; `render` in the model file turns it into the protocol line) -/
 inductive Out where
-  | reset (track : Bool)
+  | reset
+  | fin (track : Bool)
   | parse (ok : Bool) (doc : JVal)
   | node (r : Res) (doc : JVal)
   | two (doc doc2 : JVal)
@@ -292,11 +295,17 @@ def Out.eraseL2 : Out → Out
 
 /-- four documents and the allocator kind (which only matters for the cross-document preconditions) -/
 structure State where
+  /-- a case is open (between `dom-reset` and `dom-end`) -/
+  live : Bool
   alloc : AllocKind
   docs : List JVal
   deriving Repr
 
-def State.init (a : AllocKind) : State := ⟨a, [.null, .null, .null, .null]⟩
+/-- before the first `dom-reset` -/
+def State.init : State := ⟨false, .pool, [.null, .null, .null, .null]⟩
+
+/-- after `dom-reset a` -/
+def State.fresh (a : AllocKind) : State := ⟨true, a, [.null, .null, .null, .null]⟩
 
 /-- `dst = std::move(src)` inside one document: `src` must not be a proper ancestor of `dst`;
     `src == dst` is a no-op; `dst` may be an ancestor of `src`.  The source is detached (nulled) first. -/
@@ -309,11 +318,11 @@ def moveNode (doc : JVal) (dst src : Path) : Option JVal :=
 def moveNode2 (D : JVal) (dst : Path) (S : JVal) (src : Path) : Option (JVal × JVal) :=
   (get S src).bind fun v => (set S src .null).bind fun S' => (set D dst v).map fun D' => (D', S')
 
-/-- `dst.CopyFrom(src)` inside one document: `src` must not be `dst` or inside `dst`.  The destination is
-    destroyed first (it reads as null while the copy is taken, which matters when `dst` is inside `src`). -/
+/-- `dst.CopyFrom(src)` inside one document: neither node may be an ancestor-or-self of the other
+    (aliasing precondition of the copy constructor) -/
 def copyNode (doc : JVal) (dst src : Path) : Option JVal :=
-  if dst.isPrefixOf src then none
-  else (set doc dst .null).bind fun d1 => (get d1 src).bind fun v => set d1 dst v
+  if dst.isPrefixOf src || src.isPrefixOf dst then none
+  else (get doc src).bind fun v => set doc dst v
 
 def copyNode2 (D : JVal) (dst : Path) (S : JVal) (src : Path) : Option JVal :=
   (get S src).bind fun v => set D dst v
@@ -327,9 +336,10 @@ def swapNodes (doc : JVal) (a b : Path) : Option JVal :=
 def swapNodes2 (D : JVal) (a : Path) (S : JVal) (b : Path) : Option (JVal × JVal) :=
   (get D a).bind fun x => (get S b).bind fun y => (set D a y).bind fun D' => (set S b x).map fun S' => (D', S')
 
-/-- the command interpreter; `none` = `bad-op` (a precondition of dom.md fails; the state is then unchanged) -/
-def step (env : Env) (s : State) : Op → Option (State × Out)
-  | .reset a => some (State.init a, .reset (a == .track))
+/-- commands inside an open case -/
+def stepLive (env : Env) (s : State) : Op → Option (State × Out)
+  | .reset a => some (State.fresh a, .reset)
+  | .fin => some ({ State.fresh s.alloc with live := false }, .fin (s.alloc == .track))
   | .parse d text =>
     if d < s.docs.length then
       match env.parse text with
@@ -366,6 +376,13 @@ def step (env : Env) (s : State) : Op → Option (State × Out)
   | .docSwap d d2 =>
     (s.docs[d]?).bind fun D => (s.docs[d2]?).map fun S =>
       ({ s with docs := (s.docs.set d S).set d2 D }, .two S D)
+
+/-- the command interpreter; `none` = `bad-op` (a precondition of dom.md fails; the state is then unchanged).
+    Outside a case (before the first `dom-reset`, after `dom-end`) only `dom-reset` is accepted. -/
+def step (env : Env) (s : State) (op : Op) : Option (State × Out) :=
+  match op with
+  | .reset a => some (State.fresh a, .reset)
+  | op => if s.live then stepLive env s op else none
 
 /-- run a list of commands; a rejected command leaves the state unchanged and yields `none` (`bad-op`) -/
 def run (env : Env) : State → List Op → State × List (Option Out)
